@@ -90,7 +90,7 @@ class World:
             f = agraph.check_invariants(w['g'], w['nodes'], w['atts'], w['names'])
             if f:
                 return (f[0], '%s (graph #%d): %s' % (where, k, f[1]))
-            f = agraph.check_compromise_symmetry(w['g'], w['atts'])
+            f = agraph.check_compromise_symmetry(w['g'], w['atts'], ever_nodes=w['nodes'])
             if f:
                 return (f[0], '%s (graph #%d): %s' % (where, k, f[1]))
         self.count('steps-checked')
@@ -247,6 +247,14 @@ def apply(world, op):
             {'compromise': lambda: a.compromise(n), 'undo': lambda: a.undo_compromise(n),
              'node_compromise': lambda: n.compromise(a), 'node_undo': lambda: n.undo_compromise(a)}[kind]()
             world.count('op:' + kind)
+        elif kind == 'entry_point':
+            # the entry point list is a public field that callers extend (attach_attackers itself assigns it)
+            a, n = att(op[1]), node(op[2])
+            if a is None or n is None:
+                return None
+            if not any(x is n for x in a.entry_points):
+                a.entry_points.append(n)
+            world.count('op:entry-point-appended-directly')
         elif kind == 'attach':
             if g.model is None:
                 return None
@@ -396,7 +404,7 @@ def gen_history(rng, n, generated):
         elif r < 0.48:
             ops.append(['remove_attacker', rng.randrange(10)])
         elif r < 0.66:
-            ops.append([rng.choice(['compromise', 'compromise', 'undo', 'node_compromise', 'node_undo']), rng.randrange(1000), rng.randrange(1000)])
+            ops.append([rng.choice(['compromise', 'compromise', 'undo', 'node_compromise', 'node_undo', 'entry_point']), rng.randrange(1000), rng.randrange(1000)])
         elif r < 0.70 and generated:
             ops.append(['attach'])
         elif r < 0.76:
@@ -443,7 +451,7 @@ def run(rng, res, tier, shard, nshards):
     AG = agmod.AttackGraph
     reach = Reach()
     for fn in ('add_node', 'remove_node', 'regenerate_graph', 'add_attacker', 'remove_attacker', '__deepcopy__', 'attach_attackers'):
-        reach.add('AttackGraph.' + fn, getattr(AG, fn))
+        reach.add('AttackGraph.' + fn, getattr(AG, fn, None))
     reach.add('AttackGraph._from_dict', AG._from_dict.__func__)
     reach.start()
     seen = set()
